@@ -1,0 +1,8 @@
+//go:build !verif
+// +build !verif
+
+package graph
+
+func verifCanon(ev string, a, b int, s, t []int) {}
+
+func verifCanonVertex(ev string, a, b int, v int) {}
